@@ -162,6 +162,44 @@ func (v *vfs) resolveInRoot(root, rel string, depth int) (string, *vnode, error)
 	return cur, v.nodes[cur], nil
 }
 
+// fileInfoMethod: the methods of the os.FileInfo values handed out by the
+// virtual os.Stat / os.Lstat / (*os.Root).Stat.
+func (m *Machine) fileInfoMethod(o opaque, name string) (value, bool) {
+	p, _ := o.payload.(string)
+	lstat := strings.HasPrefix(p, "lstat:")
+	p = strings.TrimPrefix(p, "lstat:")
+	v := m.fs()
+	var n *vnode
+	if lstat {
+		if rdir, _, err := v.resolve(filepath.Dir(p), "", 0); err == nil {
+			n = v.nodes[filepath.Join(rdir, filepath.Base(p))]
+		}
+	} else {
+		_, n, _ = v.resolve(v.abs(p), "", 0)
+	}
+	if n == nil {
+		return nil, false
+	}
+	var mode uint32 = 0o644
+	switch n.kind {
+	case "dir":
+		mode = 1<<31 | 0o755 // fs.ModeDir
+	case "link":
+		mode = 1<<27 | 0o777 // fs.ModeSymlink
+	}
+	switch name {
+	case "Mode":
+		return mode, true
+	case "IsDir":
+		return n.kind == "dir", true
+	case "Name":
+		return filepath.Base(p), true
+	case "Size":
+		return int64(0), true
+	}
+	return nil, false
+}
+
 var errNotExist = fmt.Errorf("no such file or directory")
 var errELOOP = fmt.Errorf("too many levels of symbolic links")
 
@@ -374,7 +412,7 @@ func init() {
 		if _, ok := lastComponent(m.fs(), p); !ok {
 			return tuple{iface{}, m.notExistErr(p)}
 		}
-		return tuple{iface{t: m.shared.errorT, v: opaque{kind: "fileinfo", payload: m.fs().abs(p)}}, iface{}}
+		return tuple{iface{t: m.shared.errorT, v: opaque{kind: "fileinfo", payload: "lstat:" + m.fs().abs(p)}}, iface{}}
 	})
 	reg("(*os.Root).Stat", func(m *Machine, fr *frame, pos token.Pos, a []value) value {
 		v := m.fs()
